@@ -5,17 +5,26 @@ from __future__ import annotations
 from .. import core, dotgraph, tlaval, tlc
 
 
-def _case(inp, split):
+EPOCH = 1_790_000_000.0      # log records carry epoch seconds; one model time unit = one engine tick (0.1 s)
+
+
+def _case(inp, split, epoch=False):
     from openpectus.aggregator.models import AggregatedErrorLog
     import openpectus.protocol.models as Mdl
     b1, b2 = inp[:split], inp[split:]
 
+    def real(t):
+        return EPOCH + 0.1 * t if epoch else float(t)
+
+    def model(x):
+        return int(round((x - EPOCH) * 10)) if epoch else int(x)
+
     def mk(batch):
-        return Mdl.ErrorLog(entries=[Mdl.ErrorLogEntry(message=e["msg"], created_time=float(e["t"]), severity=e["sev"])
+        return Mdl.ErrorLog(entries=[Mdl.ErrorLogEntry(message=e["msg"], created_time=real(e["t"]), severity=e["sev"])
                                      for e in batch])
 
     def proj(agg):
-        return [{"msg": x.message, "sev": x.severity, "t": int(x.created_time), "n": x.occurrences} for x in agg.entries]
+        return [{"msg": x.message, "sev": x.severity, "t": model(x.created_time), "n": x.occurrences} for x in agg.entries]
     agg = AggregatedErrorLog.empty()
     ev = {"b1": b1, "b2": b2, "after1": [], "after2": [], "exc": "none"}
     try:
@@ -39,7 +48,9 @@ def run(ctx: core.Ctx) -> core.Outcome:
         cases = [(tlaval.to_py(g.var(n, "input")), g.var(n, "split")) for n in g.labels]
     finally:
         tlc.rm_scratch(scratch)
-    traces = [{"id": f"c{i}", "ev": [_case(inp, sp)]} for i, (inp, sp) in enumerate(cases)]
+    # every case with small times and again with times as the engine produces them (epoch seconds, 0.1 s apart)
+    traces = [{"id": f"c{i}", "ev": [_case(inp, sp)]} for i, (inp, sp) in enumerate(cases)] + \
+        [{"id": f"e{i}", "ev": [_case(inp, sp, epoch=True)]} for i, (inp, sp) in enumerate(cases)]
     verdicts, tstats = core.validate_traces("ErrLogTrace", traces)
     by_id = {t["id"]: t for t in traces}
     viols = []
